@@ -3,6 +3,7 @@ package task
 import (
 	"context"
 	"fmt"
+	"time"
 
 	"github.com/go-task/task/v3/internal/fingerprint"
 	"github.com/go-task/task/v3/taskfile/ast"
@@ -36,6 +37,58 @@ func (e *Executor) Status(ctx context.Context, calls ...*Call) error {
 		}
 		if !isUpToDate {
 			return fmt.Errorf(`task: Task "%s" is not up-to-date`, t.Name())
+		}
+	}
+	return nil
+}
+
+// statusPending returns what statusOnSuccess will record if the attempt that
+// starts now succeeds: the checksum of the sources as they are before the
+// commands run, or the current time for the timestamp method.
+func (e *Executor) statusPending(t *ast.Task) any {
+	if len(t.Sources) == 0 {
+		return nil
+	}
+	method := t.Method
+	if method == "" {
+		method = e.Taskfile.Method
+	}
+	checker, err := fingerprint.NewSourcesChecker(method, e.TempDir.Fingerprint, true)
+	if err != nil {
+		return nil
+	}
+	switch c := checker.(type) {
+	case *fingerprint.ChecksumChecker:
+		if v, err := c.Value(t); err == nil {
+			return v
+		}
+	case *fingerprint.TimestampChecker:
+		return time.Now()
+	}
+	return nil
+}
+
+// statusOnSuccess records the fingerprint of a task whose commands have all succeeded.
+func (e *Executor) statusOnSuccess(t *ast.Task, pending any) error {
+	if pending == nil {
+		return nil
+	}
+	method := t.Method
+	if method == "" {
+		method = e.Taskfile.Method
+	}
+	checker, err := fingerprint.NewSourcesChecker(method, e.TempDir.Fingerprint, false)
+	if err != nil {
+		return err
+	}
+	switch c := checker.(type) {
+	case *fingerprint.ChecksumChecker:
+		if hash, ok := pending.(string); ok {
+			return c.Record(t, hash)
+		}
+	case *fingerprint.TimestampChecker:
+		if at, ok := pending.(time.Time); ok {
+			return c.Record(t, at)
 		}
 	}
 	return nil
